@@ -440,6 +440,61 @@ func derived3(full bool) []leaf3 {
 		d := 1 - p.Dist(inner.Center)
 		return d > 0 && p.X <= -0.25, !(math.Abs(d) <= 1e-9) && !(math.Abs(p.X+0.25) <= 1e-9)
 	})
+	// every named wrapper of the clamp family (each is its own line of code), on both sides of the sphere's centre
+	type clampFn struct {
+		name string
+		f    func(model3d.Solid, float64) model3d.Solid
+		axis int
+		max  bool
+	}
+	for _, cf := range []clampFn{
+		{"ClampXMin", toolbox3d.ClampXMin, 0, false}, {"ClampXMax", toolbox3d.ClampXMax, 0, true},
+		{"ClampYMin", toolbox3d.ClampYMin, 1, false}, {"ClampYMax", toolbox3d.ClampYMax, 1, true},
+		{"ClampZMin", toolbox3d.ClampZMin, 2, false}, {"ClampZMax", toolbox3d.ClampZMax, 2, true},
+		{"ClampAxisMin(Y)", func(s model3d.Solid, v float64) model3d.Solid { return toolbox3d.ClampAxisMin(s, toolbox3d.AxisY, v) }, 1, false},
+		{"ClampAxisMax(Z)", func(s model3d.Solid, v float64) model3d.Solid { return toolbox3d.ClampAxisMax(s, toolbox3d.AxisZ, v) }, 2, true},
+	} {
+		cf := cf
+		for _, v := range []float64{-0.25, 0.5, 1.5, -3, 3} {
+			v := v
+			add(fmt.Sprintf("%s(sphere(0,0,1;1),%g)", cf.name, v), cf.f(inner, v), func(p c3) (bool, bool) {
+				d := 1 - p.Dist(inner.Center)
+				x := p.Array()[cf.axis]
+				keep := x >= v
+				if cf.max {
+					keep = x <= v
+				}
+				return d > 0 && keep, !(math.Abs(d) <= 1e-9) && !(math.Abs(x-v) <= 1e-9)
+			})
+		}
+	}
+	// predicates behind the explicit bounds check: the predicate alone is an unbounded half space / slab / everything
+	for _, bx := range [][2]c3{{model3d.XYZ(-1, -2, 0.5), model3d.XYZ(2, 1, 3)}, {model3d.XYZ(0, 0, 0), model3d.XYZ(1, 1e-3, 1)}, {model3d.XYZ(-4, -4, -4), model3d.XYZ(-3, -3.5, -1)}} {
+		mn, mx := bx[0], bx[1]
+		in := func(p c3) bool { return p.X >= mn.X && p.Y >= mn.Y && p.Z >= mn.Z && p.X <= mx.X && p.Y <= mx.Y && p.Z <= mx.Z }
+		near := func(p c3) bool {
+			for i := 0; i < 3; i++ {
+				if math.Abs(p.Array()[i]-mn.Array()[i]) <= 1e-9 || math.Abs(p.Array()[i]-mx.Array()[i]) <= 1e-9 {
+					return true
+				}
+			}
+			return false
+		}
+		mid := mn.Mid(mx)
+		add(fmt.Sprintf("CheckedFuncSolid(%v,%v,everything)", mn, mx), model3d.CheckedFuncSolid(mn, mx, func(c3) bool { return true }), func(p c3) (bool, bool) { return in(p), !near(p) })
+		add(fmt.Sprintf("CheckedFuncSolid(%v,%v,halfspace)", mn, mx), model3d.CheckedFuncSolid(mn, mx, func(p c3) bool { return p.X+p.Y+p.Z > mid.X+mid.Y+mid.Z }),
+			func(p c3) (bool, bool) {
+				h := p.X + p.Y + p.Z - (mid.X + mid.Y + mid.Z)
+				return in(p) && h > 0, !near(p) && !(math.Abs(h) <= 1e-9)
+			})
+		add(fmt.Sprintf("Rect(%v,%v).Expand(0.25)", mn, mx), model3d.NewRect(mn, mx).Expand(0.25), func(p c3) (bool, bool) {
+			q := p.Sub(mid)
+			h := mx.Sub(mn).Scale(0.5).AddScalar(0.25)
+			dx, dy, dz := math.Abs(q.X)-h.X, math.Abs(q.Y)-h.Y, math.Abs(q.Z)-h.Z
+			m := math.Max(dx, math.Max(dy, dz))
+			return m <= 0, !(math.Abs(dx) <= 1e-9) && !(math.Abs(dy) <= 1e-9) && !(math.Abs(dz) <= 1e-9)
+		})
+	}
 	hm := toolbox3d.NewHeightMap(model2d.XY(-1, -0.5), model2d.XY(1, 1), 16)
 	hm.AddSphere(model2d.XY(0.2, 0.1), 0.5)
 	hm.AddSphere(model2d.XY(-0.6, 0.5), 0.3)
@@ -844,6 +899,26 @@ func leaves2() []leaf2 {
 			inTri := y >= h && math.Abs(x)+y <= math.Sqrt2*rad
 			decisive := math.Abs(m-rad) > 1e-9 && math.Abs(y-h) > 1e-9 && math.Abs(math.Abs(x)+y-math.Sqrt2*rad) > 1e-9
 			return m <= rad || inTri, decisive
+		})
+	}
+	for _, bx := range [][2]c2{{model2d.XY(-1, -2), model2d.XY(2, 1)}, {model2d.XY(0, 0), model2d.XY(1, 1e-3)}, {model2d.XY(-4, -4), model2d.XY(-3, -3.5)}} {
+		mn, mx := bx[0], bx[1]
+		in := func(p c2) bool { return p.X >= mn.X && p.Y >= mn.Y && p.X <= mx.X && p.Y <= mx.Y }
+		near := func(p c2) bool {
+			return math.Abs(p.X-mn.X) <= 1e-9 || math.Abs(p.X-mx.X) <= 1e-9 || math.Abs(p.Y-mn.Y) <= 1e-9 || math.Abs(p.Y-mx.Y) <= 1e-9
+		}
+		mid := mn.Mid(mx)
+		add(fmt.Sprintf("2d.CheckedFuncSolid(%v,%v,everything)", mn, mx), model2d.CheckedFuncSolid(mn, mx, func(c2) bool { return true }), func(p c2) (bool, bool) { return in(p), !near(p) })
+		add(fmt.Sprintf("2d.CheckedFuncSolid(%v,%v,halfplane)", mn, mx), model2d.CheckedFuncSolid(mn, mx, func(p c2) bool { return p.X-p.Y > mid.X-mid.Y }),
+			func(p c2) (bool, bool) {
+				h := p.X - p.Y - (mid.X - mid.Y)
+				return in(p) && h > 0, !near(p) && !(math.Abs(h) <= 1e-9)
+			})
+		add(fmt.Sprintf("2d.Rect(%v,%v).Expand(0.25)", mn, mx), model2d.NewRect(mn, mx).Expand(0.25), func(p c2) (bool, bool) {
+			q := p.Sub(mid)
+			h := mx.Sub(mn).Scale(0.5)
+			dx, dy := math.Abs(q.X)-h.X-0.25, math.Abs(q.Y)-h.Y-0.25
+			return math.Max(dx, dy) <= 0, !(math.Abs(dx) <= 1e-9) && !(math.Abs(dy) <= 1e-9)
 		})
 	}
 	pr := model2d.NewConvexPolytopeRect(model2d.XY(-1, 0.5), model2d.XY(0.5, 1))
